@@ -661,9 +661,14 @@ class CodeGenMapper(Mapper[ImplementedResult, Never, [CodeGenState]]):
         if expr in state.results:
             return state.results[expr]
 
-        self.rec(expr._container, state)
+        # the container registers its results under its own named arrays;
+        # *expr* may be a tagged copy of one of them
+        own_named_array = expr._container[expr.name]
 
-        assert expr in state.results
+        if own_named_array not in state.results:
+            self.rec(expr._container, state)
+
+        state.results[expr] = state.results[own_named_array]
         return state.results[expr]
 
     def map_loopy_call(self, expr: LoopyCall, state: CodeGenState) -> None:
